@@ -274,7 +274,9 @@ class RecordLayer(object):
     :ivar ~.version: the TLS version to use (tuple encoded as on the wire)
     :ivar sock: underlying socket
     :ivar client: whether the connection should use encryption
-    :ivar handshake_finished: used in SSL2, True if handshake protocol is over
+    :ivar handshake_finished: True if handshake protocol is over (selects
+        the record type in SSL2, ends acceptance of unprotected alerts in
+        TLS 1.3)
     :ivar tls13record: if True, the record layer will use the TLS 1.3 version
         and content type hiding
     :ivar bool early_data_ok: if True, it's ok to ignore undecryptable records
@@ -937,7 +939,8 @@ class RecordLayer(object):
                         len(data) < 3 and \
                         self._readState and \
                         self._readState.encContext and \
-                        self._readState.seqnum == 0:
+                        self._readState.seqnum == 0 and \
+                        not self.handshake_finished:
                     pass
                 elif self._readState and \
                     self._readState.encContext and \
